@@ -177,6 +177,26 @@ fn exec_val(input: &str, out: &mut CaseOut) {
         Some(v) => v,
         None => return out.fail("harness", "unparsable C19 val input".into()),
     };
+    exec_val_v(v, out)
+}
+
+/// Numbers whose unit the exchange format cannot name: the database's DEFAULT_UNIT (no identifiers; what
+/// `get_unit_or_default` and `"unknown".into()` hand out) stored through the public field, alone, in a dict, in a list
+fn exec_du(out: &mut CaseOut) {
+    let du: &'static libhaystack::units::Unit = &libhaystack::units::DEFAULT_UNIT;
+    for x in [1.5f64, 0.0, -3.0, f64::NAN] {
+        let n = Value::Number(Number { value: x, unit: Some(du) });
+        exec_val_v(n.clone(), out);
+        let mut d = Dict::new();
+        d.insert("n".into(), n.clone());
+        exec_val_v(Value::Dict(d), out);
+        exec_val_v(Value::List(vec![n]), out);
+    }
+    // the model is not asked: the exchange format names units by symbol
+    out.reqs.clear();
+}
+
+fn exec_val_v(v: Value, out: &mut CaseOut) {
     out.nontrivial = true;
     let me = variant_index(&v);
     out.stat(&format!("kind:{}", VARIANT_NAMES[me]));
@@ -481,6 +501,7 @@ fn exec_grid(input: &str, out: &mut CaseOut) {
 pub fn exec(label: &str, input: &str, out: &mut CaseOut) {
     match label.split(':').next().unwrap_or(label) {
         "val" => exec_val(input, out),
+        "du" => exec_du(out),
         "get" => exec_get(input, out),
         "code" => exec_code(input, out),
         "name" => exec_name(input, out),
@@ -559,6 +580,7 @@ fn grid_case(rng: &mut Rng) -> String {
 pub fn generate(ctx: &mut Ctx) {
     // exhaustive parts, on every run
     ctx.case("kinds", "-");
+    ctx.case("du", "-");
     for n in 0..256u32 {
         ctx.case("code", &n.to_string());
     }
